@@ -44,6 +44,78 @@ fn make_str(n: usize, salt: u32) -> String {
     (0..n).map(|i| (b'a' + ((i as u32 * 7 + salt) % 26) as u8) as char).collect()
 }
 
+
+/// Produce one more owning handle from `s` through the API selected by `code`/`c`.
+fn clone_through<F: Family>(code: OpCode, c: u32, s: &Handle<F>) -> Option<Handle<F>> {
+    let op = Op::new(code, 0, 0, c);
+    match (op.code, s) {
+                (OpCode::Clone, Handle::ArcP(x)) => Some(Handle::ArcP(x.clone())),
+                (OpCode::Clone, Handle::ArcQ(x)) => Some(Handle::ArcQ(x.clone())),
+                (OpCode::Clone, Handle::OffP(x)) => Some(Handle::OffP(x.clone())),
+                (OpCode::Clone, Handle::UnionP(x)) => Some(Handle::UnionP(x.clone())),
+                (OpCode::Clone, Handle::UnionQ(x)) => Some(Handle::UnionQ(x.clone())),
+                (OpCode::Clone, Handle::DynP(x)) => Some(Handle::DynP(x.clone())),
+                (OpCode::Clone, Handle::ErasedP(x)) => Some(Handle::ErasedP(x.clone())),
+                (OpCode::Clone, Handle::Hs(x)) => Some(Handle::Hs(x.clone())),
+                (OpCode::Clone, Handle::Sl(x)) => Some(Handle::Sl(x.clone())),
+                (OpCode::Clone, Handle::SlE(x)) => Some(Handle::SlE(x.clone())),
+                (OpCode::Clone, Handle::Fat(x)) => Some(Handle::Fat(x.clone())),
+                (OpCode::Clone, Handle::Prot(x)) => Some(Handle::Prot(x.clone())),
+                (OpCode::Clone, Handle::Thin(x)) => Some(Handle::Thin(x.clone())),
+                (OpCode::Clone, Handle::Str(x)) => Some(Handle::Str(x.clone())),
+                (OpCode::Clone, Handle::HStr(x)) => Some(Handle::HStr(x.clone())),
+                (OpCode::Clone, Handle::MuP(x)) => Some(Handle::MuP(x.clone())),
+                (OpCode::Clone, Handle::SlMu(x)) => Some(Handle::SlMu(x.clone())),
+                (OpCode::BorrowCloneArc, Handle::ArcP(x)) => Some(Handle::ArcP(x.borrow_arc().clone_arc())),
+                (OpCode::BorrowCloneArc, Handle::ArcQ(x)) => Some(Handle::ArcQ(x.borrow_arc().clone_arc())),
+                (OpCode::BorrowCloneArc, Handle::ErasedP(x)) => Some(Handle::ErasedP(x.borrow_arc().clone_arc())),
+                (OpCode::BorrowCloneArc, Handle::OffP(x)) => Some(Handle::ArcP(x.borrow_arc().clone_arc())),
+                (OpCode::BorrowCloneArc, Handle::UnionP(x)) => Some(Handle::ArcP(x.as_first().unwrap().clone_arc())),
+                (OpCode::BorrowCloneArc, Handle::UnionQ(x)) => Some(Handle::ArcQ(x.as_second().unwrap().clone_arc())),
+                (OpCode::OffCloneArc, Handle::OffP(x)) => Some(Handle::ArcP(x.clone_arc())),
+                (OpCode::WithArcClone, Handle::Thin(x)) => Some(Handle::Fat(x.with_arc(|a| {
+                    callback(Cb::Closure);
+                    let c = a.clone();
+                    callback(Cb::Closure);
+                    c
+                }))),
+                (OpCode::WithArcClone, Handle::OffP(x)) => Some(Handle::ArcP(x.with_arc(|a| {
+                    callback(Cb::Closure);
+                    let c = a.clone();
+                    callback(Cb::Closure);
+                    c
+                }))),
+                (OpCode::WithArcClone, Handle::ArcP(x)) => {
+                    if op.c % 2 == 0 {
+                        Some(Handle::ArcP(x.borrow_arc().with_arc(|a| {
+                            callback(Cb::Closure);
+                            let c = a.clone();
+                            callback(Cb::Closure);
+                            c
+                        })))
+                    } else {
+                        Some(Handle::OffP(x.with_raw_offset_arc(|o| {
+                            callback(Cb::Closure);
+                            let c = o.clone();
+                            callback(Cb::Closure);
+                            c
+                        })))
+                    }
+                }
+                (OpCode::WithArcClone, Handle::UnionP(x)) => Some(Handle::ArcP(x.as_first().unwrap().with_arc(|a| {
+                    callback(Cb::Closure);
+                    let c = a.clone();
+                    callback(Cb::Closure);
+                    c
+                }))),
+                #[cfg(feature = "cfg_a")]
+                (OpCode::SwapLoadFull, Handle::SwapP(x)) => Some(untracked(|| Handle::ArcP(x.load_full()))),
+                #[cfg(feature = "cfg_a")]
+                (OpCode::SwapLoadFull, Handle::SwapThin(x)) => Some(untracked(|| Handle::Thin(x.load_full()))),
+        _ => None,
+    }
+}
+
 enum Expect {
     Ok,
     Panic,
@@ -554,72 +626,7 @@ impl<'a, F: Family> Cx<'a, F> {
         let what = op.text();
         let r: Result<Option<Handle<F>>, _> = {
             let s = &self.slots[src as usize - self.base].as_ref().unwrap().h;
-            guarded(|| match (op.code, s) {
-                (OpCode::Clone, Handle::ArcP(x)) => Some(Handle::ArcP(x.clone())),
-                (OpCode::Clone, Handle::ArcQ(x)) => Some(Handle::ArcQ(x.clone())),
-                (OpCode::Clone, Handle::OffP(x)) => Some(Handle::OffP(x.clone())),
-                (OpCode::Clone, Handle::UnionP(x)) => Some(Handle::UnionP(x.clone())),
-                (OpCode::Clone, Handle::UnionQ(x)) => Some(Handle::UnionQ(x.clone())),
-                (OpCode::Clone, Handle::DynP(x)) => Some(Handle::DynP(x.clone())),
-                (OpCode::Clone, Handle::ErasedP(x)) => Some(Handle::ErasedP(x.clone())),
-                (OpCode::Clone, Handle::Hs(x)) => Some(Handle::Hs(x.clone())),
-                (OpCode::Clone, Handle::Sl(x)) => Some(Handle::Sl(x.clone())),
-                (OpCode::Clone, Handle::SlE(x)) => Some(Handle::SlE(x.clone())),
-                (OpCode::Clone, Handle::Fat(x)) => Some(Handle::Fat(x.clone())),
-                (OpCode::Clone, Handle::Prot(x)) => Some(Handle::Prot(x.clone())),
-                (OpCode::Clone, Handle::Thin(x)) => Some(Handle::Thin(x.clone())),
-                (OpCode::Clone, Handle::Str(x)) => Some(Handle::Str(x.clone())),
-                (OpCode::Clone, Handle::HStr(x)) => Some(Handle::HStr(x.clone())),
-                (OpCode::Clone, Handle::MuP(x)) => Some(Handle::MuP(x.clone())),
-                (OpCode::Clone, Handle::SlMu(x)) => Some(Handle::SlMu(x.clone())),
-                (OpCode::BorrowCloneArc, Handle::ArcP(x)) => Some(Handle::ArcP(x.borrow_arc().clone_arc())),
-                (OpCode::BorrowCloneArc, Handle::ArcQ(x)) => Some(Handle::ArcQ(x.borrow_arc().clone_arc())),
-                (OpCode::BorrowCloneArc, Handle::ErasedP(x)) => Some(Handle::ErasedP(x.borrow_arc().clone_arc())),
-                (OpCode::BorrowCloneArc, Handle::OffP(x)) => Some(Handle::ArcP(x.borrow_arc().clone_arc())),
-                (OpCode::BorrowCloneArc, Handle::UnionP(x)) => Some(Handle::ArcP(x.as_first().unwrap().clone_arc())),
-                (OpCode::BorrowCloneArc, Handle::UnionQ(x)) => Some(Handle::ArcQ(x.as_second().unwrap().clone_arc())),
-                (OpCode::OffCloneArc, Handle::OffP(x)) => Some(Handle::ArcP(x.clone_arc())),
-                (OpCode::WithArcClone, Handle::Thin(x)) => Some(Handle::Fat(x.with_arc(|a| {
-                    callback(Cb::Closure);
-                    let c = a.clone();
-                    callback(Cb::Closure);
-                    c
-                }))),
-                (OpCode::WithArcClone, Handle::OffP(x)) => Some(Handle::ArcP(x.with_arc(|a| {
-                    callback(Cb::Closure);
-                    let c = a.clone();
-                    callback(Cb::Closure);
-                    c
-                }))),
-                (OpCode::WithArcClone, Handle::ArcP(x)) => {
-                    if op.c % 2 == 0 {
-                        Some(Handle::ArcP(x.borrow_arc().with_arc(|a| {
-                            callback(Cb::Closure);
-                            let c = a.clone();
-                            callback(Cb::Closure);
-                            c
-                        })))
-                    } else {
-                        Some(Handle::OffP(x.with_raw_offset_arc(|o| {
-                            callback(Cb::Closure);
-                            let c = o.clone();
-                            callback(Cb::Closure);
-                            c
-                        })))
-                    }
-                }
-                (OpCode::WithArcClone, Handle::UnionP(x)) => Some(Handle::ArcP(x.as_first().unwrap().with_arc(|a| {
-                    callback(Cb::Closure);
-                    let c = a.clone();
-                    callback(Cb::Closure);
-                    c
-                }))),
-                #[cfg(feature = "cfg_a")]
-                (OpCode::SwapLoadFull, Handle::SwapP(x)) => Some(untracked(|| Handle::ArcP(x.load_full()))),
-                #[cfg(feature = "cfg_a")]
-                (OpCode::SwapLoadFull, Handle::SwapThin(x)) => Some(untracked(|| Handle::Thin(x.load_full()))),
-                _ => None,
-            })
+            guarded(|| clone_through::<F>(op.code, op.c, s))
         };
         self.touched.push(src);
         match r {
@@ -638,6 +645,62 @@ impl<'a, F: Family> Cx<'a, F> {
             Err(p) => {
                 // only an injected closure panic can land here: nothing may have changed
                 self.classify_panic(&what, &p, false);
+                drop(p);
+                Done(Exp::default())
+            }
+        }
+    }
+
+    /// Clone (or just read) through a handle that all threads of the parallel section share by
+    /// reference: several threads may be inside `clone` on the very same handle at once.
+    fn o_shared(&mut self, op: &Op) -> Outcome {
+        let a = op.a as usize;
+        if a < SHARED_BASE || a >= SHARED_BASE + NSHARED {
+            return Skipped;
+        }
+        // outside parallel sections the shared slots are ordinary slots
+        let (h, ai): (&Handle<F>, usize) = if self.par {
+            match self.shared.get(a - SHARED_BASE).and_then(|s| s.as_ref()) {
+                Some(s) => (&s.h, s.ai),
+                None => return Skipped,
+            }
+        } else {
+            if !self.has(op.a) {
+                return Skipped;
+            }
+            let s = self.slots[a - self.base].as_ref().unwrap();
+            (&s.h, s.ai)
+        };
+        if ai == NOAI {
+            return Skipped;
+        }
+        if op.code == OpCode::ReadShared {
+            let s = if self.par { self.shared[a - SHARED_BASE].as_ref().unwrap() } else { self.slots[a - self.base].as_ref().unwrap() };
+            check_slot(s, self.env, !self.par, op, op.a);
+            return Done(Exp { no_rmw: false, ..Exp::default() });
+        }
+        let dst = op.b;
+        if !self.free(dst) || dst as usize >= SHARED_BASE {
+            return Skipped;
+        }
+        let code = match op.c % 4 {
+            0 => OpCode::Clone,
+            1 => OpCode::BorrowCloneArc,
+            2 => OpCode::WithArcClone,
+            _ => OpCode::OffCloneArc,
+        };
+        let r = guarded(|| clone_through::<F>(code, op.c / 4, h).or_else(|| clone_through::<F>(OpCode::Clone, 0, h)));
+        match r {
+            Ok(None) => Skipped,
+            Ok(Some(nh)) => {
+                let mut exp = Exp::default();
+                self.add_owner(ai, &mut exp);
+                self.put(dst, Slot { h: nh, ai });
+                probes::hit(P_SHARED_CLONE);
+                Done(exp)
+            }
+            Err(p) => {
+                self.classify_panic(&op.text(), &p, false);
                 drop(p);
                 Done(Exp::default())
             }
@@ -1186,6 +1249,7 @@ pub fn dispatch<F: Family>(cx: &mut Cx<'_, F>, op: &Op) -> Outcome {
         | SlMuNew | UniSlMuNew | UniHsMuNew | UniFatMuNew => cx.c_slice(op),
         HugeNew => cx.c_huge(op),
         Clone | BorrowCloneArc | OffCloneArc | WithArcClone | SwapLoadFull => cx.o_clone(op),
+        CloneShared | ReadShared => cx.o_shared(op),
         ToOffset | FromOffset | IntoRaw | FromRaw | FromRawAsDyn | UnsizeDyn | ToUnion | ToUnionCross | Erase | Unerase | IntoThin | FromThin
         | ProtFromThin | ProtIntoThin | Shareable | SwapWrap | SwapUnwrap | RefCntTrip => cx.o_convert(op),
         MoveSlot => cx.o_move(op),
